@@ -218,4 +218,26 @@ CHECKS = {
         assumptions=['hints are slice types (what generated methods pass)', 'allocation is measured with runtime/metrics /gc/heap/allocs:bytes around the call',
                      'a decode call still running after 30 s whose goroutine dump shows decoder frames is a hang (no case comes near: typical calls take microseconds)'],
     ),
+    'C14': dict(
+        module='harness-tlgen', pkg='./c14', test='TestC14', level='exploration',
+        quick=dict(shards=4, checks=40, budget_s=900),
+        thorough=dict(shards=16, checks=300, budget_s=3300),
+        level_text=('Grammar-generated schemas of the documented TL subset carry their own model: (1) tlparser.ParseSchema must extract exactly the declared names, ids, '
+                    'parameters and result types; (2) generating four times gives byte-identical files; (3) every generated package of a batch is compiled in a scratch '
+                    'module; (4) a program linking the compiled packages compares the registry each declares with an independent reading of the schema text (same '
+                    'comparison as C13: ids, field order/kinds, flag tags, FlagIndex, enum members, interface implementers); (5) the shipped schemes/api_latest.tl goes '
+                    'through the same pipeline with its real ids; every other file under schemes/ is parsed for totality.'),
+        technique='grammar-based property testing (rapid) of parser and generator with compile-and-compare translation validation per generated package',
+        rule=('case = one generated schema (1..6 types incl. enums, single/multi-constructor types, constructor named like its type, namespaces, every primitive, flags word '
+              'at any position, conditional parameters on bits 0..31 incl. shared bits and true, vectors of every element kind, recursive types, 0..4 functions returning '
+              'objects, enums, Bool and vectors, @type/@constructor/@enum/@method/@param annotations with arbitrary text, parameter names incl. keywords/errors/c). '
+              'Non-trivial: the schema has a shared bit, a flags word that is not first, a constructor named like its type, a namespace or a vector result; distinct by hash of the text.'),
+        must_hit=['feat:shared-bit', 'feat:flags-not-first', 'feat:constructor-named-like-type', 'feat:namespace', 'feat:enum-type', 'feat:single-constructor-type', 'feat:multi-constructor-type',
+                  'feat:function-returning-Bool', 'feat:function-returning-vector', 'feat:function-returning-object', 'feat:function-returning-enum', 'feat:vector-parameter',
+                  'feat:object-typed-parameter', 'shipped:api_latest.tl', 'shipped:parser-totality', 'compiled-packages'],
+        assumptions=['identifiers are snake_case words of letters and digits without empty segments (as in every shipped schema)',
+                     'a flags word is declared only when at least one parameter is conditional on it (as in every shipped schema)',
+                     'annotation texts do not themselves start with // or /* (the code generator library copies such texts verbatim)',
+                     'for shipped files other than api_latest.tl only totality of the parser is asserted (mtproto.tl uses syntax outside the subset)'],
+    ),
 }
